@@ -6,6 +6,9 @@ COMMON_STUBS = ["std::panic::catch_unwind -> call-through (Kani compiles with pa
 FMT = "std::fmt::format -> empty String (error-message text is never the subject)"
 CLOCK_FIXED = "Instant::now (std+tokio) -> fixed instant; ElectionTimer::random_duration -> min (timers are not the subject)"
 
+LVL = "tracing LevelFilter::current -> OFF (all tracing macros statically dead; same as running without a subscriber)"
+RND = "std::hash::RandomState::new -> fixed keys (OS randomness is a foreign call)"
+
 PROPS = {}
 
 
@@ -61,9 +64,12 @@ prop("C01",
      ["d-engine-core/src/election/election_handler.rs", "d-engine-core/src/utils/cluster.rs", "d-engine-core/src/membership.rs"],
      ["message transport / gRPC", "event-loop scheduling across iterations", "membership change during an election (C26)", "crash/restart (C02)"],
      [TRUST_COMPOSE, TRUST_TOOL],
-     [h_vote_kernel, h_quorum])
+     [h_vote_kernel, h_quorum,
+      H("c01_candidate_vote_legality", "h_kernels", functions=["ElectionHandler::check_vote_request_is_legal", "ElectionHandler::if_node_could_grant_the_vote_request", "is_target_log_more_recent"],
+        bounds="request, current term, last log id, recorded vote: full width", stubs=[LVL],
+        assumptions=["pre-state invariant: a recorded vote never belongs to a term above current_term"])])
 
-prop("C03_DISABLED",
+prop("C03_OLD",
      "A candidate is declared winner without asking anybody only if the current membership has no other voter (real "
      "broadcast_vote_requests + the Membership trait's default is_single_node_cluster, all memberships up to 5 nodes with "
      "initial_cluster_size independent of the current voter set).",
@@ -115,13 +121,87 @@ prop("C05",
      [TRUST_COMPOSE, TRUST_TOOL],
      [h_vote_kernel, h_purge_f])
 
-LVL = "tracing LevelFilter::current -> OFF (all tracing macros statically dead; same as running without a subscriber)"
-RND = "std::hash::RandomState::new -> fixed keys (OS randomness is a foreign call)"
+
+prop("C03",
+     "The predicate that lets a candidate skip vote collection (Membership::is_single_node_cluster, the trait default that "
+     "RaftMembership uses; broadcast_vote_requests returns Ok immediately iff it holds) is true only if the current membership "
+     "has no other voter, for every member set of up to 4 peers (any subset learners) and every initial_cluster_size 1..=5.",
+     ["d-engine-core/src/membership.rs", "d-engine-core/src/election/election_handler.rs"],
+     ["broadcast_vote_requests itself is not executed (its symbolic execution does not finish: DESIGN.md 2b); that it consults only this predicate before returning Ok is read from the source",
+      "that RaftMembership::voters() reflects the committed membership (C26/C28)"],
+     [TRUST_COMPOSE, TRUST_TOOL],
+     [H("c03_single_node_predicate", "h_kernels", loops=6, functions=["Membership::is_single_node_cluster (trait default)", "Membership::initial_cluster_size / voters (model VMem)"],
+        bounds="0..=4 peers, any subset learners (symbolic), initial_cluster_size 1..=5 (symbolic, independent of the member set)", stubs=[LVL]),
+      H("c03_single_node_predicate_two_voters", "h_kernels", loops=6, functions=["Membership::is_single_node_cluster (trait default)"],
+        bounds="2 voter peers (concrete shape), initial_cluster_size 1..=5", stubs=[LVL]),
+      H("c03_single_node_predicate_alone", "h_kernels", loops=6, functions=["Membership::is_single_node_cluster (trait default)"],
+        bounds="no peers (concrete shape), initial_cluster_size 1..=5", stubs=[LVL])])
+
+prop("C07",
+     "Follower commit rule kernels: the commit index a follower adopts is min(leader_commit, its last entry), never beyond the "
+     "leader's commit index, never decreasing; a request is accepted only if the follower's entry at prev_log_index has "
+     "prev_log_term (or prev is the virtual (0,0) entry), a stale-term request is always rejected, and conflict hints are "
+     "the first index of the conflicting term / last+1 and never point past the rejected prev index.",
+     ["d-engine-core/src/replication/replication_handler.rs"],
+     ["that entries beyond the last NEW entry match the leader (the classic 'index of last new entry' argument) rests on the "
+      "leader-side invariant argued in DESIGN.md 4/C07, not solver-checked",
+      "the async handle_append_entries path over Vec<Entry> (symbolic execution does not finish, DESIGN.md 2b)",
+      "role_state.rs wiring of commit_index_update"],
+     [TRUST_COMPOSE, TRUST_TOOL],
+     [H("c07_follower_commit_arithmetic", "h_kernels", functions=["ReplicationHandler::if_update_commit_index_as_follower"],
+        bounds="all three indexes full-width u64", stubs=[LVL], assumptions=["last_entry_id >= commit_index (committed entries are in the log)"]),
+      H("c07_append_request_legality", "h_kernels", loops=6, functions=["ReplicationHandler::check_append_entries_request_is_legal", "AppendEntriesResponse::{success,conflict,higher_term}"],
+        bounds="follower log 0..=4 entries with symbolic non-decreasing terms; request term/prev index/prev term full width",
+        stubs=[LVL, CLOCK_FIXED, "RaftLog -> array-backed reference log VLog"],
+        assumptions=["a request with prev_log_index 0 carries prev_log_term 0 (what build_append_request produces)"])])
+
+prop("C09",
+     "Leader-side bookkeeping kernels: a success response sets match_index to the acknowledged index and next_index to "
+     "match+1 and is rejected if it carries a higher term; a conflict response never raises match_index and yields "
+     "next_index >= 1; the follower-side hints that feed them are checked under C07.",
+     ["d-engine-core/src/replication/replication_handler.rs"],
+     ["calculate_majority_matched_index (BufferedRaftLog: crossbeam SkipMap, not encodable) and LeaderState::calculate_new_commit_index "
+      "(HashMap-heavy: symbolic execution does not finish) -- the majority/current-term rule itself is therefore NOT decided here",
+      "mid-flight learner->voter flips across events"],
+     [TRUST_COMPOSE, TRUST_TOOL],
+     [H("c09_response_to_peer_update", "h_repl", loops=6, functions=["ReplicationHandler::handle_success_response", "ReplicationHandler::handle_conflict_response"],
+        bounds="terms, indexes, hints full width; leader log 0..=4 entries", stubs=[LVL, CLOCK_FIXED, "RaftLog -> VLog"]),
+      H("c07_append_request_legality", "h_kernels", loops=6, functions=["ReplicationHandler::check_append_entries_request_is_legal"],
+        bounds="follower log 0..=4 entries; request fields full width", stubs=[LVL, CLOCK_FIXED, "RaftLog -> VLog"],
+        assumptions=["a request with prev_log_index 0 carries prev_log_term 0"])])
+
+prop("C25",
+     "SCOPED to the key-range bound of the RocksDB prefix scan: for every prefix and key of up to 3 bytes, a key lies in "
+     "[prefix, prefix_successor(prefix)) exactly when it has the prefix, and the upper bound is absent exactly for all-0xFF "
+     "prefixes.",
+     ["d-engine-server/src/storage/adaptors/rocksdb/rocksdb_state_machine.rs"],
+     ["the iterate-then-read-revision ordering of scan_prefix (FFI) -- i.e. the revision half of the property is NOT decided",
+      "keys/prefixes longer than 3 bytes"],
+     [TRUST_TOOL, "prefix_successor is checked as a verbatim source slice (the file needs the rocksdb FFI feature to compile as a whole); sha256 of the slice is in the evidence"],
+     [H("c25_prefix_scan_bound", "h_kernels", loops=6, functions=["prefix_successor (source slice)"], bounds="prefix 1..=3 bytes, key 0..=3 bytes, all byte values")])
+
 prop("WIP", "work in progress batch", [], [], [], [
-    H("c08_leader_request_contiguous", "h_repl", timeout=300),
-    H("c08_leader_request_capped_plus_new", "h_repl", timeout=300),
-    H("c07_follower_commit_rule", "h_repl", timeout=300),
-    H("c09_response_to_peer_update", "h_repl", timeout=300),
+    H("c08_leader_ranges_uncapped_or_heartbeat", "h_repl", timeout=900, loops=17),
+    H("c08_leader_ranges_capped_plus_new", "h_repl", timeout=900, loops=17),
+    H("c13_follower_client_cmd", "h_role", timeout=900),
+    H("c13_candidate_client_cmd", "h_role", timeout=900),
+    H("c13_learner_client_cmd", "h_role", timeout=900),
+    H("c01_follower_vote_step", "h_role", timeout=900),
+    H("c27_learner_vote_step", "h_role", timeout=900),
+    H("c03_single_node_predicate", "h_kernels", timeout=300, loops=6),
+    H("c03_single_node_predicate_alone", "h_kernels", timeout=300, loops=6),
+    H("c03_single_node_predicate_one_voter", "h_kernels", timeout=300, loops=6),
+    H("c03_single_node_predicate_one_learner", "h_kernels", timeout=300, loops=6),
+    H("c03_single_node_predicate_two_voters", "h_kernels", timeout=300, loops=6),
+    H("c03_single_node_predicate_voter_and_learner", "h_kernels", timeout=300, loops=6),
+    H("c03_single_node_predicate_four_voters", "h_kernels", timeout=300, loops=6),
+    H("c01_candidate_vote_legality", "h_kernels", timeout=900),
+    H("c07_follower_commit_arithmetic", "h_kernels", timeout=900),
+    H("c07_append_request_legality", "h_kernels", timeout=900),
+    H("c25_prefix_scan_bound", "h_kernels", timeout=900),
+    H("c07_follower_commit_rule", "h_repl", timeout=900),
+    H("c01_election_needs_majority_3voters", "h_election", timeout=900),
+    H("c03_sole_voter_0peers", "h_election", timeout=900),
 ])
 prop("PROBE", "probes", [], [], [], [
     H("probe_default_cfg", "probe", timeout=600),
